@@ -187,6 +187,125 @@ fn simple_ops(r: &mut Rep) {
     }
 }
 
+
+// ---------------------------------------------------------------------------------------------- leaf-function call sites
+// In optimised builds without_interrupts and its closure are inlined into the caller. If the caller then makes no call at
+// all it is a leaf function and keeps its locals in the red zone below RSP without moving RSP; any stack use inside the
+// crate's asm blocks that the compiler was not told about (a push under `nostack`) then overwrites those locals. Each shape
+// below keeps N values alive across the call(s) and is compared with the same computation without the crate.
+macro_rules! leaf_shape {
+    ($name:ident, $refn:ident, $n:expr, $nested:expr) => {
+        #[inline(never)]
+        fn $name(seed: u64) -> u64 {
+            let mut v = [0u64; $n];
+            let mut x = seed;
+            let mut i = 0;
+            while i < $n {
+                x = x.wrapping_mul(6364136223846793005).wrapping_add(1442695040888963407);
+                v[i] = std::hint::black_box(x);
+                i += 1;
+            }
+            let r = interrupts::without_interrupts(|| {
+                let mut a = 0u64;
+                let mut i = 0;
+                while i < $n {
+                    a = a.rotate_left(5) ^ v[i];
+                    i += 1;
+                }
+                if $nested {
+                    a ^= interrupts::without_interrupts(|| v[$n / 2].rotate_left(17) ^ v[0]);
+                }
+                a
+            });
+            let e = interrupts::are_enabled() as u64;
+            let mut out = r ^ (e << 63) ^ (e << 63);
+            let mut i = 0;
+            while i < $n {
+                out = out.wrapping_mul(31) ^ v[i];
+                i += 1;
+            }
+            out
+        }
+        #[inline(never)]
+        fn $refn(seed: u64) -> u64 {
+            let mut v = [0u64; $n];
+            let mut x = seed;
+            for i in 0..$n {
+                x = x.wrapping_mul(6364136223846793005).wrapping_add(1442695040888963407);
+                v[i] = x;
+            }
+            let mut a = 0u64;
+            for i in 0..$n {
+                a = a.rotate_left(5) ^ v[i];
+            }
+            if $nested {
+                a ^= v[$n / 2].rotate_left(17) ^ v[0];
+            }
+            let mut out = a;
+            for i in 0..$n {
+                out = out.wrapping_mul(31) ^ v[i];
+            }
+            out
+        }
+    };
+}
+leaf_shape!(leaf1, ref1, 1, false);
+leaf_shape!(leaf2, ref2, 2, false);
+leaf_shape!(leaf3, ref3, 3, true);
+leaf_shape!(leaf4, ref4, 4, false);
+leaf_shape!(leaf6, ref6, 6, true);
+leaf_shape!(leaf8, ref8, 8, false);
+leaf_shape!(leaf12, ref12, 12, true);
+leaf_shape!(leaf15, ref15, 15, false);
+leaf_shape!(leaf16, ref16, 16, true);
+leaf_shape!(leaf17, ref17, 17, false);
+leaf_shape!(leaf24, ref24, 24, true);
+leaf_shape!(leaf40, ref40, 40, false);
+
+/// scalar locals instead of an array (register pressure decides what is spilled where)
+#[inline(never)]
+fn leaf_scalars(s: u64) -> u64 {
+    use std::hint::black_box as bb;
+    let (a, b, c, d, e, f, g, h) = (bb(s ^ 1), bb(s ^ 2), bb(s ^ 3), bb(s ^ 4), bb(s ^ 5), bb(s ^ 6), bb(s ^ 7), bb(s ^ 8));
+    let (i, j, k, l, m, n, o, p) = (bb(s ^ 9), bb(s ^ 10), bb(s ^ 11), bb(s ^ 12), bb(s ^ 13), bb(s ^ 14), bb(s ^ 15), bb(s ^ 16));
+    let r = interrupts::without_interrupts(|| a.wrapping_add(b).wrapping_add(p));
+    r ^ a ^ b.rotate_left(1) ^ c.rotate_left(2) ^ d.rotate_left(3) ^ e.rotate_left(4) ^ f.rotate_left(5) ^ g.rotate_left(6) ^ h.rotate_left(7)
+        ^ i.rotate_left(8) ^ j.rotate_left(9) ^ k.rotate_left(10) ^ l.rotate_left(11) ^ m.rotate_left(12) ^ n.rotate_left(13) ^ o.rotate_left(14) ^ p.rotate_left(15)
+}
+fn ref_scalars(s: u64) -> u64 {
+    let v: Vec<u64> = (1..=16u64).map(|k| s ^ k).collect();
+    let r = v[0].wrapping_add(v[1]).wrapping_add(v[15]);
+    (0..16).fold(r, |acc, k| acc ^ v[k].rotate_left(k as u32))
+}
+
+fn leaf_shapes(r: &mut Rep) {
+    let shapes: &[(&str, fn(u64) -> u64, fn(u64) -> u64)] = &[
+        ("leaf1", leaf1, ref1), ("leaf2", leaf2, ref2), ("leaf3n", leaf3, ref3), ("leaf4", leaf4, ref4), ("leaf6n", leaf6, ref6), ("leaf8", leaf8, ref8),
+        ("leaf12n", leaf12, ref12), ("leaf15", leaf15, ref15), ("leaf16n", leaf16, ref16), ("leaf17", leaf17, ref17), ("leaf24n", leaf24, ref24),
+        ("leaf40", leaf40, ref40), ("leaf-scalars", leaf_scalars, ref_scalars),
+    ];
+    for &(name, f, g) in shapes {
+        for if0 in [false, true] {
+            for seed in [0u64, 1, 0x0000_0000_0000_0206, 0xdead_beef_0123_4567, u64::MAX] {
+                let c = cpu();
+                c.rflags_sys = if if0 { 0x202 } else { 0x2 };
+                c.clear_events();
+                let res = run_stepped(|| f(std::hint::black_box(seed)));
+                let after = c.interrupts_enabled();
+                r.ev(true);
+                r.transitions += c.evs().len() as u64;
+                let case = format!("leaf {} {} {:#x}", name, if0 as u8, seed);
+                if res != Ok(g(seed)) {
+                    r.viol("C17|without_interrupts|result-or-captured-data-corrupted-in-a-leaf-caller", &case, &format!("{:x?} expected {:#x}", res, g(seed)));
+                }
+                if after != if0 {
+                    r.viol("C17|without_interrupts|interrupt-flag-not-restored-in-a-leaf-caller", &case, "");
+                }
+            }
+        }
+    }
+}
+
 pub fn run(a: &Args) {
     crate::simcpu::init();
     let mut r = Rep::new("C17", "interrupt-flag-step-mode");
@@ -196,6 +315,8 @@ pub fn run(a: &Args) {
             let mut pos = 0;
             let tree = parse(t[1].as_bytes(), &mut pos);
             program_case(&mut r, &tree, t[2] == "1", u64::from_str_radix(t[3].trim_start_matches("0x"), 16).unwrap());
+        } else if t[0] == "leaf" {
+            leaf_shapes(&mut r);
         } else {
             simple_ops(&mut r);
         }
@@ -258,6 +379,7 @@ pub fn run(a: &Args) {
     }
     if a.shard == 0 {
         guarded(&mut r, "C17|enable/disable/are_enabled|unexpected-panic", || "flagops".into(), |r| simple_ops(r));
+        guarded(&mut r, "C17|without_interrupts|unexpected-panic", || "leaf".into(), |r| leaf_shapes(r));
     }
     r.states = r.evals;
     r.exhaustive = true;
